@@ -35,7 +35,7 @@ class Flow:
                 ds = link._chain(ds)
             elif isinstance(link, DataStreamProcessor):
                 ds = link(ds, position=position)
-            elif isfunction(link):
+            elif isfunction(link) or (callable(link) and not isinstance(link, Iterable)):
                 sig = signature(link)
                 params = list(sig.parameters)
                 if len(params) == 1:
@@ -51,5 +51,7 @@ class Flow:
                     assert False, 'Failed to parse function signature {!r}'.format(params)
             elif isinstance(link, Iterable):
                 ds = iterable_loader(link)(ds, position=position)
+            else:
+                raise TypeError('Flow cannot interpret link #{} as a step: {!r}'.format(position, link))
 
         return ds
